@@ -51,6 +51,9 @@ def fmod (x r : α) : α := x - r * Num.floor (x / r)
 def trunc (x : α) : α := if x < 0 then -(Num.floor (-x)) else Num.floor x
 /-- `2^b` as a scalar -/
 def pow2 (b : Nat) : α := Num.ofNat (2 ^ b)
+/-- `x ** y` for positive `x` (`torch.pow`): `exp (y · log x)`.  For `x = 0` IEEE gives `exp(-inf) = 0`
+    like `torch.pow`; over ℝ the identity with the real power needs `0 < x` (stated where used). -/
+def powPos (x y : α) : α := Num.exp (y * Num.log x)
 /-- degrees → radians, as `numpy.radians` -/
 def radians (d : α) : α := d * Num.pi / Num.ofNat 180
 
